@@ -67,7 +67,7 @@ var brKindType = map[string]reflect.Type{
 	"uintptr": reflect.TypeOf(uintptr(0)), "float32": reflect.TypeOf(float32(0)), "float64": reflect.TypeOf(float64(0)),
 	"string": reflect.TypeOf(""), "bool": reflect.TypeOf(true), "iface": brIfaceType,
 	"list": reflect.TypeOf([]interface{}{}), "map": reflect.TypeOf(map[interface{}]interface{}{}), "error": brErrType,
-	"nint": reflect.TypeOf(time.Duration(0)), "nfloat": reflect.TypeOf(brCelsius(0)),
+	"nint": reflect.TypeOf(time.Duration(0)), "nfloat": reflect.TypeOf(brCelsius(0)), "nhuge": reflect.TypeOf(uint64(0)),
 }
 
 var brParamKinds = []string{"int", "int8", "int16", "int32", "int64", "uint", "uint8", "uint16", "uint32", "uint64", "uintptr", "float32", "float64", "string", "bool", "iface", "list", "map"}
@@ -82,7 +82,13 @@ var brOut = map[string]struct {
 	"uintptr": {uintptr(7), 14}, "float32": {float32(0.5), 1}, "float64": {float64(2.5), 5},
 	"string": {"r", 0}, "bool": {true, 0}, "iface": {int16(5), 10}, "list": {[]interface{}{float64(1)}, 0},
 	"nint": {time.Duration(1500), 3000}, "nfloat": {brCelsius(36.5), 73},
+	// an unsigned result beyond the signed 64 bit range (exactly representable as an ECAL number): its faithful arrival is
+	// reported to the trace specification as the token brHugeToken
+	"nhuge": {brHugeOut, brHugeToken},
 }
+
+const brHugeOut = uint64(1<<63 + 1<<62)
+const brHugeToken = 7777
 
 var brNumVal = map[string]float64{"n0": 0, "n1": 1, "nm1": -1, "n2h": 2.5, "nm2h": -2.5, "n127": 127, "n128": 128, "n255": 255, "n256": 256, "nm129": -129,
 	"n65535": 65535, "n65536": 65536, "n1e6": 1e6, "n3e9": 3e9, "nm3e9": -3e9, "n1e19": 1e19, "nm1e19": -1e19, "nan": math.NaN(), "inf": math.Inf(1)}
@@ -202,6 +208,9 @@ func brDescribe(ret interface{}, sig *brSig) (string, []brRet) {
 		case nil:
 			return brRet{T: "null"}
 		case float64:
+			if x == float64(brHugeOut) {
+				return brRet{T: "number", V: brHugeToken}
+			}
 			if sv, ok := scaled(x); ok {
 				return brRet{T: "number", V: sv}
 			}
@@ -288,7 +297,7 @@ func C19(r *ev.Run) {
 
 	// signatures
 	resultSets := [][]string{{}, {"int8"}, {"uint64"}, {"float32"}, {"float64"}, {"string"}, {"iface"}, {"int", "string"}, {"float64", "bool", "uint16"}, {"list"},
-		{"error", "int32"}, {"uintptr", "uint8", "int16", "int64", "uint32"}, {"uint", "int32", "uint16"}, {"nint"}, {"nfloat", "string", "nint"}}
+		{"error", "int32"}, {"uintptr", "uint8", "int16", "int64", "uint32"}, {"uint", "int32", "uint16"}, {"nint"}, {"nfloat", "string", "nint"}, {"nhuge"}, {"string", "nhuge", "int8"}}
 	var paramSets [][]string
 	paramSets = append(paramSets, []string{})
 	for _, a := range brParamKinds {
